@@ -293,7 +293,7 @@ func typeSerializer(t dsl.Type, contextNamespace string, namedType *dsl.NamedTyp
 					serializers[i] = "yardl.binary.NoneSerializer"
 					factories[i] = "yardl.None"
 				} else {
-					serializers[i] = typeSerializer(c.Type, contextNamespace, namedType)
+					serializers[i] = typeSerializer(c.Type, contextNamespace, nil)
 					factories[i] = fmt.Sprintf("@%s.%s", unionClassName, formatting.ToPascalCase(c.Tag))
 				}
 			}
